@@ -579,6 +579,7 @@ class Model:
     opts = beh.get('opts') or {}
     limit = opts.get('repeat_limit') or 3
     count = 1
+    last_recorded = None
     while True:
       last = count >= limit
       recorded = None
@@ -591,6 +592,8 @@ class Model:
         final, exc = 'SKIP', None                            # (r11)
       else:
         final, recorded, exc = self.once(pid, beh, sub, last)
+      if recorded is not None:
+        last_recorded = recorded
       rep = False
       if final == 'TIMEOUT' and opts.get('repeat_on_timeout'):
         rep = True
@@ -604,8 +607,10 @@ class Model:
         count += 1
         continue
       break
-    if (self.sof and not is_start and recorded is not None and       # (r8, r12)
-        recorded[1] == 'FAIL'):
+    # (r8, r12; r14: the last record the phase wrote decides, also when a
+    # later attempt was skipped by a run_if that turned false)
+    if (self.sof and not is_start and last_recorded is not None and
+        last_recorded[1] == 'FAIL'):
       final, exc = 'STOP', None
     if final in ('STOP', 'EXC', 'TIMEOUT'):
       return self.term(final, exc)
